@@ -10,6 +10,7 @@
 (* Mode selects the request alphabet:                                        *)
 (*   "c12"  plain / conditional puts and deletes, delete-ranges              *)
 (*   "c16"  sequence puts mixed with plain writes, deletes and ranges        *)
+(*   "c16big" the same with deltas over the whole uint64 range + restarts    *)
 (*   "c15"  puts with secondary indexes, deletes, ranges + index probes      *)
 (*   "c13"  product of field classes after a few set-up requests             *)
 EXTENDS OxiaDb, TLC, Json
@@ -96,6 +97,29 @@ C16Targets == {MaxKeyOf(LiveOf(p)) : p \in {q \in C16Prefixes : LiveOf(q) # {}}}
 C16P == {SeqPut(p, d) : p \in C16Prefixes, d \in C16Deltas} \cup {PlainPut(k, 0, NoExp) : k \in C16Targets}
 C16D == {[key |-> k, exp |-> NoExp] : k \in C16Targets}
 C16R == {[s |-> Ks, e |-> Ks \o <<46>>], [s |-> Ka, e |-> Kz]}     \* ["s","s."): all "s-..." keys; ["a","z")
+
+\* c16big: the same with deltas over the whole uint64 range (OxiaDb.tla: Delta20 / AddU64) - 2^31, 2^63-1, 2^63,
+\* 2^63+1, 2^64-2, 2^64-1 next to 1, in one-suffix ("s") and two-suffix ("t/u") sequences, so that suffixes cross
+\* 2^31 and 2^63, reach 2^64-1 exactly (2^63-1 + 2^63, 2^64-2 + 1) and pass it (2^63 + 2^63, 2^64-1 + 1: the
+\* class SeqOverflow, where the code wraps); deletes / overwrites of the current maximum, a range delete of the
+\* whole sequence and restarts in between.
+Dig(ds) == [i \in 1..Len(ds) |-> 48 + ds[i]]
+B31   == Dig(<<2,1,4,7,4,8,3,6,4,8>>)                         \* 2^31
+B63m1 == Dig(<<9,2,2,3,3,7,2,0,3,6,8,5,4,7,7,5,8,0,7>>)       \* 2^63-1
+B63   == Dig(<<9,2,2,3,3,7,2,0,3,6,8,5,4,7,7,5,8,0,8>>)       \* 2^63
+B63p1 == Dig(<<9,2,2,3,3,7,2,0,3,6,8,5,4,7,7,5,8,0,9>>)       \* 2^63+1
+B64m2 == Dig(<<1,8,4,4,6,7,4,4,0,7,3,7,0,9,5,5,1,6,1,4>>)     \* 2^64-2
+B64m1 == Dig(<<1,8,4,4,6,7,4,4,0,7,3,7,0,9,5,5,1,6,1,5>>)     \* 2^64-1
+\* (bd[i] = <<>>: the delta is ds[i]; otherwise ds[i] is 0 and the delta is the number written in bd[i])
+BigSeqPut(pfx, ds, bd) == SeqPut(pfx, ds) @@ [bd |-> bd]
+C16BigOne == {SeqPut(Ks, <<1>>)} \cup {BigSeqPut(Ks, <<0>>, <<b>>) : b \in {B31, B63m1, B63, B63p1, B64m2, B64m1}}
+C16BigTwo == {SeqPut(Ktu, <<1, 2>>), SeqPut(Ktu, <<2, 0>>),
+              BigSeqPut(Ktu, <<0, 7>>, <<B63, <<>> >>), BigSeqPut(Ktu, <<1, 0>>, << <<>>, B63>>),
+              BigSeqPut(Ktu, <<0, 0>>, <<B31, B63p1>>), BigSeqPut(Ktu, <<0, 0>>, <<B64m1, B64m1>>)}
+C16BigTargets == {MaxKeyOf(LiveOf(p)) : p \in {q \in C16Prefixes : LiveOf(q) # {}}}
+C16BigP == C16BigOne \cup C16BigTwo \cup {PlainPut(k, 0, NoExp) : k \in C16BigTargets}
+C16BigD == {[key |-> k, exp |-> NoExp] : k \in C16BigTargets}
+C16BigR == {[s |-> Ks, e |-> Ks \o <<46>>]}
 
 \* ---------------------------------------------------------------- c15
 IdxPut(k, ix) == [key |-> k, val |-> 0, exp |-> NoExp, sess |-> NoSess, cid |-> "", pkey |-> FALSE,
@@ -212,6 +236,7 @@ Requests ==
     CASE Mode \in {"c12", "c12p"} -> ReqsOver(C12P, C12D, C12R, MaxOps)
       [] Mode = "c12big" -> ReqsOver(BigP, BigD, BigR, MaxOps)
       [] Mode = "c16" -> {r \in ReqsOver(C16P, C16D, C16R, MaxOps) : ~SeqStateError(st, Stamp(r))}
+      [] Mode = "c16big" -> {r \in ReqsOver(C16BigP, C16BigD, C16BigR, MaxOps) : ~SeqStateError(st, Stamp(r))}
       [] Mode = "c15" -> ReqsOver(C15P, C15D, C15R, MaxOps)
       [] Mode = "c13" -> IF HasLookAlike THEN ReqsOver(C13Seq, {}, {}, 1)
                          ELSE IF HasHostileIdx THEN ReqsOver(C13HP, C13D, C13R, MaxOps)
@@ -232,14 +257,15 @@ Probes(s) == [gets  |-> IF Mode = "c15" /\ Export # "none" THEN AnySeq(ProbeGets
 WriteRec(s, req, off, ts) ==
     LET ap == Apply(s, req, off, ts) IN
     [a |-> "Write", off |-> off, ts |-> ts, req |-> req, err |-> "", kf |-> SeqStateError(s, req),
+     ovf |-> SeqOverflow(s, req),      \* (finding seqOverflow: what follows is the code's wrapping arithmetic)
      res |-> ap.res, nf |-> NfSeq(ap.nf)] @@ Observe(ap.s) @@ Probes(ap.s)
 \* refused by the leader before an offset is allocated: nothing happens
 RejectRec(s, req) ==
-    [a |-> "Write", off |-> -1, ts |-> 0, req |-> req, err |-> "REJECTED", kf |-> FALSE,
+    [a |-> "Write", off |-> -1, ts |-> 0, req |-> req, err |-> "REJECTED", kf |-> FALSE, ovf |-> FALSE,
      res |-> [puts |-> <<>>, dels |-> <<>>, rngs |-> <<>>], nf |-> <<>>] @@ Observe(s) @@ Probes(s)
 \* close and re-create the DB / the leader controller (which replays its log): nothing changes
 RestartRec(s) ==
-    [a |-> "Restart", off |-> -1, ts |-> 0, req |-> NoReq, err |-> "", kf |-> FALSE,
+    [a |-> "Restart", off |-> -1, ts |-> 0, req |-> NoReq, err |-> "", kf |-> FALSE, ovf |-> FALSE,
      res |-> [puts |-> <<>>, dels |-> <<>>, rngs |-> <<>>], nf |-> <<>>] @@ Observe(s) @@ Probes(s)
 
 ProbeWrite == [NoReq EXCEPT !.puts = <<PlainPut(Kz, 99, NoExp)>>]
@@ -277,7 +303,7 @@ MInit ==
 \* same log is applied once more (off: the offset after which the snapshot is cut, ts: how far the commit offset
 \* announced to the follower lags behind the entry it is sent with)
 IsC06 == Mode \in {"c06", "c06big"}
-DoRestart == /\ IsC06 /\ hist # <<>> /\ hist[Len(hist)].a # "Restart"
+DoRestart == /\ (IsC06 \/ Mode = "c16big") /\ hist # <<>> /\ hist[Len(hist)].a # "Restart"
              /\ nt' = nt + 1 /\ st' = st /\ n' = n
              /\ hist' = Append(hist, RestartRec(st))
 DoRoutes  == /\ IsC06 /\ nt = MaxReqs /\ n > 0
@@ -389,27 +415,35 @@ BatchIsSequence == [][ (Stepped /\ Accepted /\ Plain /\ ~Cur.kf) =>
        /\ \A i \in 1..nd : r.out[np + i].dels[1] = Res.dels[i] ]_mvars
 
 (* C16: a sequence put creates a fresh key = prefix + suffixes of the highest key + deltas, *)
-(* strictly above every existing key of the prefix                                         *)
-RECURSIVE NumsOf(_, _)
-NumsOf(parts, i) == IF i > Len(parts) THEN <<>> ELSE <<ParseNum(parts[i])>> \o NumsOf(parts, i + 1)
+(* strictly above every existing key of the prefix.  Numbers are compared as decimal        *)
+(* strings (suffixes and deltas are uint64: Sum21 is the exact sum); the rule is claimed    *)
+(* wherever the exact result is a uint64 (~SeqOverflow), whatever the size of the numbers.  *)
 SeqRule == [][ (Stepped /\ Accepted /\ Plain /\ Len(Req.puts) = 1 /\ Len(Req.dels) = 0 /\ Len(Req.rngs) = 0
-                /\ Req.puts[1].deltas # <<>> /\ Res.puts[1].st = "OK") =>
+                /\ Req.puts[1].deltas # <<>> /\ Res.puts[1].st = "OK" /\ ~SeqOverflow(st, Req)) =>
     LET p == Req.puts[1]
         k == Res.puts[1].key
         ex == {x \in DOMAIN st.kv : HasPrefix(x, p.key \o <<DASH>>)}
-        hi == IF ex = {} THEN <<>> ELSE NumsOf(Tail(SplitDash(SubSeq(MaxKeyOf(ex), Len(p.key) + 1, Len(MaxKeyOf(ex))))), 1)
-        nk == NumsOf(Tail(SplitDash(SubSeq(k, Len(p.key) + 1, Len(k)))), 1)
+        hi == HighestParts(st.kv, p.key)
+        nk == Tail(SplitDash(SubSeq(k, Len(p.key) + 1, Len(k))))
     IN /\ HasPrefix(k, p.key \o <<DASH>>)
        /\ k \notin DOMAIN st.kv                               \* never an overwrite
        /\ \A x \in ex : KeyLt(x, k)                            \* strictly greater than every existing key
        /\ Len(nk) = Len(p.deltas)
-       /\ \A i \in 1..Len(nk) : nk[i] = (IF i <= Len(hi) THEN hi[i] ELSE 0) + p.deltas[i]
+       /\ \A i \in 1..Len(nk) : /\ Len(nk[i]) = 20 /\ IsDigits(nk[i])
+                                /\ <<48>> \o nk[i] = Sum21(IF i <= Len(hi) THEN hi[i] ELSE Zero20, Delta20(p, i))
        /\ DOMAIN st'.kv = DOMAIN st.kv \cup {k} ]_mvars
 (* ... also inside batches: the sequence keys generated by one request are new and pairwise distinct *)
-SeqFresh == [][ (Stepped /\ Accepted) =>
+SeqFresh == [][ (Stepped /\ Accepted /\ ~SeqOverflow(st, Req)) =>
     LET gen == SelectSeq(Res.puts, LAMBDA r : r.st = "OK" /\ r.key # <<>>) IN
     /\ \A i \in 1..Len(gen) : gen[i].key \notin DOMAIN st.kv
     /\ \A i, j \in 1..Len(gen) : i < j => gen[i].key # gen[j].key ]_mvars
+(* ... and grow: every key generated by a request is strictly above every key of its prefix that existed before *)
+(* the request and above the keys generated for the same prefix earlier in the request                          *)
+SeqGrows == [][ (Stepped /\ Accepted /\ Plain /\ ~SeqOverflow(st, Req)) =>
+    \A i \in 1..Len(Res.puts) : (Res.puts[i].st = "OK" /\ Res.puts[i].key # <<>>) =>
+        LET pd == Req.puts[i].key \o <<DASH>> IN
+        /\ \A x \in DOMAIN st.kv : HasPrefix(x, pd) => KeyLt(x, Res.puts[i].key)
+        /\ \A j \in 1..(i - 1) : (Res.puts[j].st = "OK" /\ HasPrefix(Res.puts[j].key, pd)) => KeyLt(Res.puts[j].key, Res.puts[i].key) ]_mvars
 
 (* C17: the notification batch of a request names exactly the user keys it created, modified, deleted or *)
 (* range-deleted, with the resulting version ids; one entry per key (the last operation on it), never an  *)
